@@ -926,7 +926,15 @@ class TFLiteSupportedOperators:
         hi = 0 if len(shape) < 4 else 1
         h, w = shape[hi : hi + 2]
         max_width = cls.mean_reduced_axis_max_size
-        return w <= max_width, f"Width is {w}"
+
+        if op.inputs[1].shape == []:
+            axis = [int(op.inputs[1].values)]
+        else:
+            axis = [int(ax) for ax in op.inputs[1].values]
+        # the limit is on the reduced extent: a wide feature map whose width is kept is not affected
+        width_idx = hi + 1
+        width_reduced = width_idx in axis or (width_idx - len(shape)) in axis
+        return not width_reduced or w <= max_width, f"Width is {w}"
 
     @classmethod
     @docstring_format_args([mean_reduced_axis_max_size])
